@@ -551,6 +551,12 @@ broadcast use vstd::std_specs::btree::group_btree_axioms;
 #[verifier::external_body]
 proof fn axiom_constraint_key_order() ensures vstd::std_specs::btree::key_obeys_cmp_spec::<Constraint>() {}
 
+/// same partition and same class types (constraints may differ)
+spec fn same_partition_and_types(a: Seq<TypeNode>, b: Seq<TypeNode>) -> bool {
+    &&& a.len() == b.len()
+    &&& forall|i: int| 0 <= i < a.len() ==> #[trigger] rep0(b, i) == rep0(a, i)
+    &&& forall|i: int| 0 <= i < a.len() ==> (#[trigger] b[i]).ty == a[i].ty && b[i].size == a[i].size
+}
 /// deferred constraints (key set) of the class of `i`
 spec fn cons_of(ts: Seq<TypeNode>, i: int) -> Set<Constraint> { ts[rep0(ts, i)].constraints@.dom() }
 
@@ -1696,11 +1702,44 @@ impl TypeChecker {
 //@ end
 //@ fn sylt-compiler/src/typechecker.rs add_constraint
 //@   in TypeChecker
-//@   mode assumed
+//@   props C02 C07
+//@   rewrite equivalent
+//@- self.find_node_mut(a)
+//@-     .constraints
+//@-     .entry(constraint)
+//@-     .or_insert_with(|| span);
+//@+ let node = self.find_node_mut(a);
+//@+ if !node.constraints.contains_key(&constraint) {
+//@+     node.constraints.insert(constraint, span);
+//@+ }
+//@   why vstd has no specification for BTreeMap::entry; entry(k).or_insert_with(f) inserts f() exactly when k is absent and leaves the map alone otherwise
+//@   endrewrite
 //@   spec
-        requires old(self).inv2(), old(self).valid(a),
-        ensures final(self).inv2(), final(self).grows(old(self)),
+        requires old(self).inv2(), old(self).valid(a), //# C07 add_constraint.pre.id_in_range
+        ensures final(self).inv2(), final(self).grows(old(self)), //# C02 add_constraint.keeps_invariant
+            same_partition_and_types(old(self).types@, final(self).types@), //# C02 add_constraint.only_constraints_change
+            cons_of(final(self).types@, a.0 as int) == cons_of(old(self).types@, a.0 as int).insert(constraint), //# C02 add_constraint.records_the_constraint_on_the_class
+            forall|i: int| 0 <= i < old(self).types@.len() && rep0(old(self).types@, i) != rep0(old(self).types@, a.0 as int)
+                ==> #[trigger] cons_of(final(self).types@, i) == cons_of(old(self).types@, i), //# C02 add_constraint.other_classes_untouched
 //@   endspec
+//@   ghost entry
+        let ghost ts0 = self.types@;
+        proof { axiom_constraint_key_order(); lemma_rep0_props(ts0, a.0 as int); }
+//@   endghost
+//@   ghost after
+//@| if !node.constraints.contains_key(&constraint) {
+//@| node.constraints.insert(constraint, span);
+//@| }
+        proof {
+            let tsf = self.types@;
+            assert forall|i: int| 0 <= i < ts0.len() && rep0(ts0, i) != rep0(ts0, a.0 as int)
+                implies #[trigger] cons_of(tsf, i) == cons_of(ts0, i) by {
+                lemma_rep0_props(ts0, i);
+                assert(rep0(tsf, i) == rep0(ts0, i));
+                assert(tsf[rep0(ts0, i)].constraints == ts0[rep0(ts0, i)].constraints);
+            }
+        }
+//@   endghost
 //@ end
 //@ fn sylt-compiler/src/typechecker.rs check_constraints
 //@   in TypeChecker
